@@ -9,6 +9,7 @@ import (
 	"testing"
 
 	"github.com/ctessum/geom"
+	"github.com/ctessum/geom/index/rtree"
 	"pgregory.net/rapid"
 	"verif/props/rtreekit"
 	"verif/vkit"
@@ -114,6 +115,116 @@ func nnWrong(m *rtreekit.Model, p geom.Point, viaK bool) string {
 	return ""
 }
 
+// knnWrong runs one k-nearest query and judges every slot against the sorted distances of all stored objects.
+func knnWrong(m *rtreekit.Model, k int, p geom.Point, dists []float64, stored map[geom.Geom]int, tol float64) string {
+	depth := m.Tree.Depth()
+	res := m.Tree.NearestNeighbors(k, p)
+	if len(res) != k {
+		return fmt.Sprintf("NearestNeighbors(%d) returned %d slots", k, len(res))
+	}
+	want := k
+	if len(m.Live) < k {
+		want = len(m.Live)
+	}
+	seen := map[geom.Geom]int{}
+	prev := -1.0
+	for j, o := range res {
+		if j >= want {
+			if o != nil {
+				return fmt.Sprintf("NearestNeighbors(%d) with %d stored objects: slot %d should be nil", k, len(m.Live), j)
+			}
+			continue
+		}
+		if o == nil {
+			return fmt.Sprintf("NearestNeighbors(%d, %v) with %d stored objects (depth %d): slot %d is nil", k, p, len(m.Live), depth, j)
+		}
+		seen[o]++
+		if seen[o] > stored[o] {
+			return fmt.Sprintf("NearestNeighbors(%d): object %v returned more often than it is stored", k, o)
+		}
+		d := rtreekit.BoxDist(p, o.Bounds())
+		if d < prev-tol {
+			return fmt.Sprintf("NearestNeighbors(%d): distances not in non-decreasing order at slot %d", k, j)
+		}
+		prev = d
+		if vkit.Off(d-dists[j], tol) {
+			return fmt.Sprintf("NearestNeighbors(%d, %v): slot %d is at distance %v but the %d-th smallest distance among the %d stored objects is %v (depth %d)", k, p, j, d, j+1, len(m.Live), dists[j], depth)
+		}
+	}
+	return ""
+}
+
+// sparse: a k-nearest search must leave a subtree that holds fewer than k objects. The structure (read through the verif
+// snapshot) is searched for subtrees that hold fewer objects than the minimum fill would give them at their level
+// (deletes leave such subtrees: a node that underflows is taken out and what is below it is put back as it is), and for
+// small subtrees right under the root; for up to eight of them, queries with k one and two above the number of objects
+// below are issued from the middle of the subtree's box and from the middle of its first object.
+func sparse(m *rtreekit.Model) (msg string, n int) {
+	root, _ := m.Tree.VerifSnapshot()
+	if root == nil || root.Leaf || len(m.Live) < 2 {
+		return "", 0
+	}
+	type cand struct {
+		box   geom.Bounds
+		first *geom.Bounds
+		c     int
+	}
+	var cands []cand
+	var walk func(nd *rtree.VerifNode, box geom.Bounds, underRoot bool) (int, *geom.Bounds)
+	walk = func(nd *rtree.VerifNode, box geom.Bounds, underRoot bool) (int, *geom.Bounds) {
+		c := 0
+		var first *geom.Bounds
+		if nd.Leaf {
+			c = len(nd.Objs)
+			if c > 0 {
+				first = nd.Objs[0].Bounds()
+			}
+		} else {
+			for i, ch := range nd.Children {
+				cc, f := walk(ch, nd.Boxes[i], nd == root)
+				c += cc
+				if first == nil {
+					first = f
+				}
+			}
+		}
+		if nd != root && c > 0 {
+			full := 1
+			for l := 0; l <= nd.Level; l++ {
+				full *= m.Tree.MinChildren
+			}
+			if c < full || (underRoot && c <= 12) {
+				cands = append(cands, cand{box, first, c})
+			}
+		}
+		return c, first
+	}
+	walk(root, geom.Bounds{}, false)
+	stored := rtreekit.Count(m.Live)
+	for i, cd := range cands {
+		if i >= 8 {
+			break
+		}
+		pts := []geom.Point{{X: (cd.box.Min.X + cd.box.Max.X) / 2, Y: (cd.box.Min.Y + cd.box.Max.Y) / 2}}
+		if cd.first != nil {
+			pts = append(pts, geom.Point{X: (cd.first.Min.X + cd.first.Max.X) / 2, Y: (cd.first.Min.Y + cd.first.Max.Y) / 2})
+		}
+		for _, p := range pts {
+			if p.X != p.X || p.Y != p.Y || math.IsInf(p.X, 0) || math.IsInf(p.Y, 0) {
+				continue
+			}
+			dists := m.SortedDists(p)
+			for _, k := range []int{cd.c + 1, cd.c + 2} {
+				n++
+				if msg := knnWrong(m, k, p, dists, stored, eps); msg != "" {
+					return fmt.Sprintf("a subtree with box %v holds %d object(s): %s", cd.box, cd.c, msg), n
+				}
+			}
+		}
+	}
+	return "", n
+}
+
 // exploit: the pruning of a k = 1 search relies on every node box being the smallest box around what is below it. When
 // the structure (read through the verif snapshot) shows a box that is larger than that, the stored objects that touch
 // the side on which it is too large are deleted as well (they are what still makes the too-large box "true" for the
@@ -170,7 +281,7 @@ func run(c Case) (v vkit.Verdict) {
 	m := rtreekit.NewModel(c)
 	var ev rtreekit.Events
 	v.Class("kind_" + c.Kind)
-	queries, probes := 0, 0
+	queries, probes, sparseQueries := 0, 0, 0
 	for i, op := range c.Ops {
 		var msg string
 		if p := vkit.Catch(func() {
@@ -181,6 +292,13 @@ func run(c Case) (v vkit.Verdict) {
 				}
 				queries++
 				p := geom.Point{X: float64(op.Qx)/2 + op.F[0], Y: float64(op.Qy)/2 + op.F[1]}
+				tol := eps
+				if op.Far != 0 {
+					// a query point far away from everything: distances are compared to within 1e-13 of their size
+					p.X, p.Y = math.Ldexp(p.X, op.Far), math.Ldexp(p.Y, op.Far)
+					tol = 1e-13 * math.Hypot(p.X, p.Y)
+					v.Class("far_query_point")
+				}
 				dists := m.SortedDists(p)
 				stored := rtreekit.Count(m.Live)
 				depth := m.Tree.Depth()
@@ -190,7 +308,7 @@ func run(c Case) (v vkit.Verdict) {
 						msg = fmt.Sprintf("NearestNeighbor(%v) returned %v which is not stored", p, o)
 						return
 					}
-					if d := rtreekit.BoxDist(p, o.Bounds()); vkit.Off(d-dists[0], eps) {
+					if d := rtreekit.BoxDist(p, o.Bounds()); vkit.Off(d-dists[0], tol) {
 						msg = fmt.Sprintf("NearestNeighbor(%v) returned an object at distance %v, the minimum is %v (size %d, depth %d)", p, d, dists[0], len(m.Live), depth)
 					}
 					return
@@ -199,44 +317,12 @@ func run(c Case) (v vkit.Verdict) {
 				if k > len(m.Live)+3 {
 					k = len(m.Live) + 3
 				}
-				res := m.Tree.NearestNeighbors(k, p)
-				if len(res) != k {
-					msg = fmt.Sprintf("NearestNeighbors(%d) returned %d slots", k, len(res))
+				if msg = knnWrong(m, k, p, dists, stored, tol); msg != "" {
 					return
 				}
 				want := k
 				if len(m.Live) < k {
 					want = len(m.Live)
-				}
-				seen := map[geom.Geom]int{}
-				prev := -1.0
-				for j, o := range res {
-					if j >= want {
-						if o != nil {
-							msg = fmt.Sprintf("NearestNeighbors(%d) with %d stored objects: slot %d should be nil", k, len(m.Live), j)
-							return
-						}
-						continue
-					}
-					if o == nil {
-						msg = fmt.Sprintf("NearestNeighbors(%d, %v) with %d stored objects (depth %d): slot %d is nil", k, p, len(m.Live), depth, j)
-						return
-					}
-					seen[o]++
-					if seen[o] > stored[o] {
-						msg = fmt.Sprintf("NearestNeighbors(%d): object %v returned more often than it is stored", k, o)
-						return
-					}
-					d := rtreekit.BoxDist(p, o.Bounds())
-					if d < prev-eps {
-						msg = fmt.Sprintf("NearestNeighbors(%d): distances not in non-decreasing order at slot %d", k, j)
-						return
-					}
-					prev = d
-					if vkit.Off(d-dists[j], eps) {
-						msg = fmt.Sprintf("NearestNeighbors(%d, %v): slot %d is at distance %v but the %d-th smallest distance among the %d stored objects is %v (depth %d)", k, p, j, d, j+1, len(m.Live), dists[j], depth)
-						return
-					}
 				}
 				if depth >= 2 && k >= 2 {
 					v.NonTrivial = true
@@ -250,6 +336,11 @@ func run(c Case) (v vkit.Verdict) {
 					if msg != "" || len(m.Live) == 0 {
 						return
 					}
+					var n int
+					if msg, n = sparse(m); msg != "" {
+						return
+					}
+					sparseQueries += n
 					for _, st := range rtreekit.StaleBoxes(m.Tree) {
 						v.Class("node_box_larger_than_its_subtree_seen")
 						var removed int
@@ -272,6 +363,11 @@ func run(c Case) (v vkit.Verdict) {
 				}
 			default:
 				msg = m.Step(op, &ev, false)
+				if msg == "" && (op.K == "delnear" || op.K == "delchain") {
+					var n int
+					msg, n = sparse(m)
+					sparseQueries += n
+				}
 			}
 		}); p != "" {
 			return v.Fail("op %d (%s) panicked: %s", i, op.K, p)
@@ -282,6 +378,10 @@ func run(c Case) (v vkit.Verdict) {
 	}
 	if queries == 0 {
 		v.Class("no_query")
+	}
+	if sparseQueries > 0 {
+		v.Class("k_above_the_size_of_a_sparse_subtree_queried")
+		v.NonTrivial = true
 	}
 	if probes > 0 {
 		v.Class("probed_after_delete")
